@@ -1,7 +1,8 @@
 (* C06 -- Interrupted or killed runs leave a dependency DB that never lies.        LABEL: PARTIAL
    Statements only; every proof is `exact <lemma of Proofs/CrashP.v>` or a closed computation.
 
-   What is proved: the logic of doit -- the serial runner's control flow around an interrupt (Model/Runner.v),
+   What is proved: the logic of doit -- the serial runner's control flow around an interrupt (Model/Runner.v; the
+   interrupted task is neither saved, removed nor reported by the run, so its record stays exactly as it was),
    the translation of the run into backend operations and the refinement of the three backends to a map
    (Model/Backends.v, C07), and the ORDER in which each backend's dump() and dbm.dumb's methods issue their file
    operations (Model/Crash.v, step lists) with every prefix of those lists as a crash state.
@@ -60,6 +61,26 @@ Theorem C06_interrupt_db : forall tasks wake_rank calc_rank continue_ always fue
   (forall j, In (ESave j) (r_tr r) -> ~ In (ERemove j) (r_tr r) -> recd j <> [] -> has m' j = true).
 Proof. exact interrupt_db. Qed.
 Print Assumptions C06_interrupt_db.
+
+(* The interrupted task itself: before its execution started the run neither removed its record nor reported it (no
+   failure report: with the invariants of the serial runner, Proofs/RunnerP.v, a task that was reported is never
+   started), and nothing after the interrupt touches the DB but the flush.  Hence no event of the run writes to it ... *)
+Theorem C06_interrupt_not_removed : forall tasks wake_rank calc_rank continue_ always fuel selected r k,
+  serial tasks wake_rank calc_rank continue_ always fuel (r_init selected) None = (r, StopInterrupt k) ->
+  ~ In (ERemove k) (r_tr r) /\ ~ In (ESave k) (r_tr r) /\ (forall kd, ~ In (EFailure k kd) (r_tr r)).
+Proof. exact interrupt_not_removed. Qed.
+Print Assumptions C06_interrupt_not_removed.
+
+(* ... and its record after the interrupted run is the record found before the run (or no record, if there was none):
+   never a mixture of the old record and the state of the interrupted execution.  [session_db recd m tr] = the map the
+   backends implement after the operations of trace tr on the map m; harness/c06.py compares exactly this term with
+   the DB the real backend classes read after each interrupted run, every record key by key. *)
+Theorem C06_interrupt_record_untouched : forall tasks wake_rank calc_rank continue_ always fuel selected r k
+    (recd : name -> list (N * Z)) (m : spec),
+  serial tasks wake_rank calc_rank continue_ always fuel (r_init selected) None = (r, StopInterrupt k) ->
+  session_db recd m (r_tr r) k = m k.
+Proof. exact interrupt_record_untouched. Qed.
+Print Assumptions C06_interrupt_record_untouched.
 
 (* ... and every backend answers in_(j) in the next session exactly as that map (C07 refinement), whatever the
    history of earlier sessions *)
@@ -189,6 +210,14 @@ Definition ex_tasks (n : name) : option task :=
 Example C06_interrupt_nonvacuous :
   exists r, serial ex_tasks (fun _ _ => 0%N) (fun x => x) false false 100 (r_init [1%N]) None = (r, StopInterrupt 1%N) /\
             r_tr r = [EGetStatus 0%N; EExecute 0%N; ESave 0%N; ESuccess 0%N; EGetStatus 1%N; EExecute 1%N; EClose].
+Proof. eexists. vm_compute. split; reflexivity. Qed.
+
+(* ... with a prior record {key 0 -> 5} of the interrupted task 1 and a record saved for task 0: the DB after the run
+   records task 0 and still holds exactly the old record of task 1 *)
+Example C06_interrupt_record_nonvacuous :
+  exists r, serial ex_tasks (fun _ _ => 0%N) (fun x => x) false false 100 (r_init [1%N]) None = (r, StopInterrupt 1%N) /\
+            enc_spec [0%N; 1%N] [0%N; 1%N]
+              (session_db (fun n => [(1%N, 7%Z)]) (mk_spec [(1%N, [(0%N, 5%Z)])]) (r_tr r)) = [1; -1; 7; 1; 5; -1]%Z.
 Proof. eexists. vm_compute. split; reflexivity. Qed.
 
 (* the oracle hypotheses are satisfiable *)
